@@ -50,6 +50,10 @@ const RISKY: &[&str] = &[
     // the shape whose result column order is known to vary
     "from t2 | select {id, s} | select {c0 = s ?? \"z\", id} | join r0 = (from t2 | select {c1 = id == 0}) (true) | group {id} (sort {c0} | take 1)\n",
     "from t1 | select {id, a, b} | remove (from t2 | select {id, a, b}) | intersect (from t3 | select {id, a, b})\n",
+    // sources known to panic in different stages
+    "let f = x -> internal std.math\nfrom t1 | select {y = f a}\n",
+    "from t1 | select {id, a} | derive {c2 = id} | sort {id} | select {c5 = c2}\n",
+    "from t1 | select {id, s} | derive {id = id + 1} | append (from t2 | select {c4 = 0, c7 = id})\n",
     // a source known to panic (multi-byte text before a parse error)
     "from t | select {a = \"é\"} | derive {zz = 1 +\n",
 ];
@@ -60,6 +64,16 @@ pub fn gen_case(t: &mut Tape) -> Case {
     for _ in 0..n {
         if t.chance(1, 3) {
             sources.push(t.pick(RISKY).to_string());
+        } else if t.chance(1, 4) {
+            // a token-mutated program: often fails, sometimes panics, in varying stages
+            let c = crate::prop::c12::gen_source_case(t);
+            if c.input.contains("import") {
+                // `import x` recursion overflows the stack (finding C12-abort-source): keep it out of
+                // in-process histories
+                sources.push(RISKY[0].to_string());
+            } else {
+                sources.push(c.input);
+            }
         } else {
             let mut cfg = GenCfg::general();
             cfg.bias = *t.pick(&[Bias::General, Bias::Frame, Bias::Sort, Bias::Window]);
@@ -205,7 +219,7 @@ fn fresh_process(case: &Case, call: &Call) -> Option<String> {
 fn order_only(a: &str, b: &str) -> bool {
     let toks = |s: &str| -> Vec<String> {
         let mut v: Vec<String> = s
-            .split(|c: char| c.is_whitespace() || c == ',' || c == '(' || c == ')' || c == '[' || c == ']' || c == '{' || c == '}')
+            .split(|c: char| c.is_whitespace() || c == ',' || c == '(' || c == ')' || c == '[' || c == ']' || c == '{' || c == '}' || c == '"' || c == ':' || c == '\\')
             .filter(|x| !x.is_empty())
             .map(|x| x.to_string())
             .collect();
@@ -234,7 +248,12 @@ pub fn check(case: &Case, known: &Known) -> Outcome {
     out.key = hash_of(&serde_json::to_string(case).unwrap_or_default());
     let attribute = |what: &str, a: &str, b: &str, detail: Value| -> Outcome {
         let mut o = Outcome::fail(what, detail);
-        if order_by_only(a, b) && known.is_open(F_ORDERBY) {
+        // the same hash-dependent choice of the ORDER BY alias sometimes runs into the recorded
+        // panic "name of this column has not been to be set" and sometimes does not
+        let pan = |x: &str| x.starts_with("PANIC") && x.contains("name of this column");
+        if (pan(a) != pan(b)) && (a.starts_with("OK") || b.starts_with("OK")) && known.is_open(F_ORDERBY) {
+            o.verdict = Verdict::Known(F_ORDERBY.into(), format!("{what}: panics or not depending on the alias choice"));
+        } else if order_by_only(a, b) && known.is_open(F_ORDERBY) {
             o.verdict = Verdict::Known(F_ORDERBY.into(), format!("{what}: differs only inside ORDER BY key lists"));
         } else if order_only(a, b) {
             let is_err = a.starts_with("ERR") || b.starts_with("ERR");
